@@ -87,6 +87,19 @@ package grammar
 //@ loop 2: invariant change == 0 ==> IC.Items == before(IC.Items) && IC.itemMap == before(IC.itemMap) && (forall k int :: 0 <= k && k < idx2 ==> item.inIC(IC, *items[k]))
 
 // ---------------------------------------------------------------------------------------------
+// C05 (and every end-to-end property through the table layout): the terminal set is exactly the terminals of the symbol
+// list - every declared token, used by a rule or not, owns an action column. len(VtSet) is where the dense table is cut
+// into its action and goto parts and what the generated file calls NTERMINALS.
+//@ func (*Grammar).ResolveSymbols
+//@ props C05 C01 C02 C06 C08
+//@ requires g != nil && (forall i int :: 0 <= i && i < len(g.Symbols) ==> g.Symbols[i] != nil)
+//@ ensures [C05,C01,C02,C06,C08] forall i int :: 0 <= i && i < len(g.Symbols) && !g.Symbols[i].IsNonTerminator ==> has(g.VtSet, g.Symbols[i])
+//@ ensures [C05,C01,C02,C06,C08] forall s *symbol.Symbol :: has(g.VtSet, s) ==> old(has(g.VtSet, s)) || (!s.IsNonTerminator && (exists i int :: 0 <= i && i < len(g.Symbols) && g.Symbols[i] == s))
+//@ modifies g.VtSet
+//@ loop 0: invariant forall i int :: 0 <= i && i < idx0 && !g.Symbols[i].IsNonTerminator ==> has(g.VtSet, g.Symbols[i])
+//@ loop 0: invariant forall s *symbol.Symbol :: has(g.VtSet, s) ==> old(has(g.VtSet, s)) || (!s.IsNonTerminator && (exists i int :: 0 <= i && i < idx0 && g.Symbols[i] == s))
+
+// ---------------------------------------------------------------------------------------------
 // C12: productive ("can terminate") and nullable nonterminals are least fixpoints over the rules.
 //   closed:     when the loop stops, every rule whose right-hand side is all marked has a marked left-hand side
 //   justified:  a symbol is marked only at a moment when all right-hand-side symbols of some rule of it are
@@ -191,7 +204,9 @@ func spec_itemPre(g *Grammar, r int, d int, n int) string { panic("spec") }
 // C13: the worklist over the states terminates because of the built-in limit: a pass that leaves 2000 or more states stops
 // generation with a message, so the index can advance at most 2000 times
 //@ func (*Grammar).ComputeAllGoto
-//@ props_tagged_only C13
+//@ props_tagged_only C13 C12
+// C12: the only refusal in the state construction is the built-in limit, and it is about the number of STATES
+//@ before_stmt [C12] "g.Show()" len(g.LR0.LR0Closure) >= 2000
 //@ requires g != nil && g.LR0 != nil && len(g.LR0.LR0Closure) < 2000
 //@ may_panic "too manay states!"
 //@ loop 0: invariant [C13] 0 <= i && g.LR0 != nil && len(g.LR0.LR0Closure) < 2000
